@@ -71,6 +71,9 @@ SETS_COMPONENT = [
     ("component.eq=a=b", ["component", "eq"], "a=b"),
     ("noequals", None, None),
     ("max_threads=4", ["max_threads"], 4),
+    # the custom tags are replaced wherever YAML is parsed - also inside a --set value
+    ("component.envset=!Env VK_ENVVAR", ["component", "envset"], "envvalue"),
+    ("component.db={user: admin, password: !Env VK_ENVVAR, none: !Env VK_NOT_SET}", ["component", "db"], {"user": "admin", "password": "envvalue", "none": None}),
 ]
 SETS_SERVICE = [
     ("services.s1.component.p=7", ["services", "s1", "component", "p"], 7),
